@@ -38,7 +38,6 @@ import (
 
 const (
 	sigInactiveToken = "inactive-token-passes-authentication-middleware"
-	sigEmptyPwPanic  = "empty-password-strength-check-panics"
 	shortMs          = 120
 	waitMs           = 250
 	farMs            = 3600000
@@ -460,9 +459,6 @@ func (s *stack) exec(strong bool, o *jop) string {
 		return fmt.Sprintf("(OP sym (DeleteUser sym %s))", vh.N(uint64(o.U)))
 	case "set_pw":
 		p, pt := s.eval(o.P)
-		if strong && p == "" {
-			s.shapes[sigEmptyPwPanic] = true
-		}
 		var err error
 		if pn := vh.Guard(func() { err = s.ts.SetPassword(ctx, s.userID(o.U), p) }); pn != "" {
 			o.Obs = []uint64{64}
@@ -472,9 +468,6 @@ func (s *stack) exec(strong bool, o *jop) string {
 		return fmt.Sprintf("(OP sym (SetPw sym %s 0 %s))", vh.N(uint64(o.U)), pt)
 	case "cmp_pw":
 		p, pt := s.eval(o.P)
-		if strong && p == "" {
-			s.shapes[sigEmptyPwPanic] = true
-		}
 		var err error
 		if pn := vh.Guard(func() { err = s.ts.ComparePassword(ctx, s.userID(o.U), p) }); pn != "" {
 			o.Obs = []uint64{64}
@@ -485,9 +478,6 @@ func (s *stack) exec(strong bool, o *jop) string {
 	case "cas_pw":
 		old, ot := s.eval(o.Old)
 		p, pt := s.eval(o.P)
-		if strong && p == "" {
-			s.shapes[sigEmptyPwPanic] = true
-		}
 		var err error
 		if pn := vh.Guard(func() { err = s.ts.CompareAndSetPassword(ctx, s.userID(o.U), old, p) }); pn != "" {
 			o.Obs = []uint64{64}
@@ -778,11 +768,8 @@ func runHist(c *jcase, gen *rand.Rand, nops int, flavour int) *result {
 		}
 	}
 	res.nontr = ok200 || pwok
-	switch {
-	case s.shapes[sigInactiveToken]:
+	if s.shapes[sigInactiveToken] {
 		res.sig = sigInactiveToken
-	case s.shapes[sigEmptyPwPanic]:
-		res.sig = sigEmptyPwPanic
 	}
 	res.term = fmt.Sprintf("(CHist %s %s %s %s %s)", vh.Bool(c.Strong), vh.Bool(c.UH), variantTerm(c.HV), vh.List(terms), vh.List(obs))
 	return res
@@ -793,7 +780,7 @@ type generator struct {
 	r       *rand.Rand
 	s       *stack
 	strong  bool
-	flavour int // 0 normal, 1 may probe inactive tokens of active users, 2 may use empty passwords under strong checking
+	flavour int // 0 normal, 1 may probe inactive tokens of active users (the known finding's shape)
 	npw10   int // cost-10 bcrypt operations so far
 	ntok    int
 	nsess   int
@@ -811,10 +798,7 @@ func (g *generator) password() *sspec {
 	}
 	k := g.pick(len(g.pws) + 1)
 	if k == len(g.pws) {
-		if g.strong && g.flavour != 2 {
-			return &sspec{T: "plain", S: g.pws[0]}
-		}
-		return &sspec{T: "empty"}
+		return &sspec{T: "empty"} // also under strong checking (IsPasswordStrong used to divide by len == 0: fixed by 3a5dc47ac9)
 	}
 	return &sspec{T: "plain", S: g.pws[k]}
 }
@@ -1064,7 +1048,7 @@ func corpus() []*jcase {
 		{Kind: "hist", UH: true, HV: 256, Ops: []*jop{{K: "create_user"}, {K: "create_auth", U: 0, Tok: pl("tok-0"), Active: true, NPerm: 3},
 			tok("Token ", pl("tok-0")), {K: "set_auth_active", ID: 0, Active: false}, tok("Token ", pl("tok-0")),
 			{K: "set_auth_active", ID: 0, Active: true}, tok("Token ", pl("tok-0"))}},
-		// KNOWN FINDING shape: empty password with strong-password checking
+		// empty password with strong-password checking: rejected with the length error (panicked before /repo 3a5dc47ac9)
 		{Kind: "hist", Strong: true, UH: true, HV: 256, Ops: []*jop{{K: "create_user"}, {K: "set_pw", U: 0, P: pl("Abcdefg1")},
 			{K: "cmp_pw", U: 0, P: &sspec{T: "empty"}}, {K: "set_pw", U: 0, P: &sspec{T: "empty"}}, {K: "cmp_pw", U: 0, P: pl("Abcdefg1")}}},
 		// empty password without strong checking is just too short
@@ -1189,11 +1173,8 @@ func main() {
 			r := rand.New(rand.NewPCG(seeds[i][0], seeds[i][1]))
 			for try := 0; ; try++ {
 				flavour := 0
-				switch r.IntN(8) {
-				case 0:
+				if r.IntN(8) == 0 {
 					flavour = 1
-				case 1:
-					flavour = 2
 				}
 				c := &jcase{Kind: "hist", Strong: r.IntN(3) == 0, UH: r.IntN(3) != 0, HV: []int{256, 256, 512}[r.IntN(3)]}
 				res := runHist(c, r, 12+r.IntN(29), flavour)
